@@ -61,7 +61,9 @@ RULE = ("api cases: a generated ranked rule system (3-7 variables: int/float/boo
         "tests, each 1-3 expectations in the by-variable / by-entity / by-instance layout, scalar / list / per-period "
         "forms, margins absent / absolute / relative / both / per-variable maps, expected values chosen equal, inside, "
         "exactly at and beyond the margin from the real engine values.  A case is non-trivial when at least one slot "
-        "was filled with a formula result (api) or at least one test passes and one fails (yaml); distinct by JSON text")
+        "was filled with a formula result (api) or at least one test passes and one fails (yaml); distinct by JSON text.  "
+        "Quick tier, seed 0: 48 application instances with 253 POST requests (120 of them also answered by the "
+        "Engine.v machine) + 65 listing requests, 936 filled slots; 30 YAML files with 356 tests")
 TRUSTED = ["PARTIAL: HTTP (Flask, werkzeug), JSON encoding/decoding, dpath, PyYAML and pytest collection are glue "
            "exercised only by the correspondence run, no theorem is about them",
            "harness/rules.py: compiler from rule-system terms to real Variable subclasses; harness/c20.py: translation of "
@@ -849,7 +851,16 @@ def ids_of_doc(entry):
 
 
 def run_api(case):
-    from openfisca_web_api.app import create_app
+    import importlib
+
+    import openfisca_web_api.app
+    import openfisca_web_api.handlers
+
+    # every case starts from freshly loaded web API modules: whatever a request sequence shows is then
+    # due to that sequence alone (and is reproduced by replaying the case in a new process)
+    importlib.reload(openfisca_web_api.handlers)
+    importlib.reload(openfisca_web_api.app)
+    create_app = openfisca_web_api.app.create_app
 
     sysj = case["sys"]
     vt = var_table(sysj)
@@ -1433,12 +1444,38 @@ def classify(case, obs):
     return f"yaml:{len(case['tests'])}-tests:{npass}-pass"
 
 
+_FRESH = """
+import json, sys, warnings
+warnings.simplefilter("ignore")
+import c20
+from common import guarded
+case = json.load(sys.stdin)
+print("C20-FRESH", "FAIL" if c20.oracle(case, guarded(c20.run_impl, case)) else "OK")
+"""
+
+
+def fails_fresh(case):
+    """does the oracle fail on this case in a new interpreter?  (A replay starts from a clean process: a
+    failure that needs what earlier cases left behind in module-level state is not reproduced by one case.)"""
+    import subprocess
+    import sys
+    try:
+        p = subprocess.run([sys.executable, "-c", _FRESH], input=json.dumps(case), capture_output=True, text=True,
+                           timeout=300)
+    except Exception:  # noqa: BLE001
+        return False
+    return "C20-FRESH FAIL" in p.stdout
+
+
 def shrink(case, still_fails):
-    """a YAML file is cut down to one failing test; a request sequence loses every operation it can"""
+    """a YAML file is cut down to one failing test; a request sequence loses every operation it can.  Every
+    candidate is tried in a new interpreter, so that the replay of the result fails by itself."""
+    if not fails_fresh(case):
+        return None
     if case["kind"] == "yaml":
         for t in case["tests"]:
             c = dict(case, tests=[t])
-            if still_fails(c):
+            if fails_fresh(c):
                 return c
         return None
     ops = list(case["ops"])
@@ -1446,7 +1483,7 @@ def shrink(case, still_fails):
     i = 0
     while i < len(ops) and len(ops) > 1:
         trial = ops[:i] + ops[i + 1:]
-        if still_fails(dict(case, ops=trial)):
+        if fails_fresh(dict(case, ops=trial)):
             ops = trial
             changed = True
         else:
